@@ -74,7 +74,53 @@ def unit_ladder(ctx):
     return rows, hir
 
 
+def _parse_filesize_by_evaluation(ctx):
+    """parse_filesize evaluated (finite interpreter) on every documented unit in three letter cases with an integral and a
+    fractional number, on plain numbers and on non-sizes.  Returns None when everything agrees, a message when a value
+    differs, and raises interp.Undecided when the source cannot be read this way"""
+    import interp
+    h = ctx.anchor_hir(PARSE_FILESIZE)
+    ps = ctx.prog.fns[PARSE_FILESIZE]["params"]
+
+    def run(text):
+        v = interp.Interp(prog=ctx.prog, max_steps=40000).run(h, {ps[0]["id"]: text})
+        if isinstance(v, interp.V) and v.name == "Option::Some":
+            return v.args[0]
+        if v == interp.NONE:
+            return None
+        raise interp.Undecided("parse_filesize(%r) gives %r" % (text, v))
+    n = 0
+    for unit, mult in oracles.SIZE_UNITS.items():
+        for form in (unit, unit.upper(), unit.capitalize()):
+            for num, factor in (("3", 3.0), ("1.5", 1.5), ("0", 0.0)):
+                if unit == "b" and "." in num:
+                    continue
+                got = run(num + form)
+                n += 1
+                want = int(factor * mult)
+                if got != want:
+                    return n, "`%s%s` denotes %s bytes, documented %d (unit `%s` = x%d)" % (num, form, got, want, unit, mult)
+    for text, want in (("5", 5), ("1024", 1024), ("", None), ("k", None), ("x1k", None), ("1x", None), ("b", None)):
+        got = run(text)
+        n += 1
+        if got != want:
+            return n, "`%s` denotes %s, expected %s" % (text, got, want)
+    return n, None
+
+
 def r1(ctx):
+    import interp
+    try:
+        n_ev, diff = _parse_filesize_by_evaluation(ctx)
+        ctx.obligation(diff is None)
+        ctx.covered("parse_filesize evaluated on 13 units x 3 letter cases x integral / fractional numbers, plain numbers, non-sizes", n_ev,
+                    distinct_keys=list(oracles.SIZE_UNITS), exhaustive=True)
+        if diff is not None:
+            ctx.violation("unit/value", ctx.where(PARSE_FILESIZE), "a size literal must denote number x unit: %s" % diff)
+        if diff is None:
+            return
+    except interp.Undecided:
+        pass        # read the ladder structurally instead
     rows, hir = unit_ladder(ctx)
     got = {r["suffix"]: r for r in rows}
     ctx.floor(len(rows), 10, "unit tests (ends_with ladder) in parse_filesize", PARSE_FILESIZE)
